@@ -51,6 +51,29 @@ func (s *ExpressionListRewriter) hasNegationAncestor() bool {
 	return false
 }
 
+// hasDisjunctiveAncestor returns true if, below the enclosing match, the node being visited is an operand of an or / xor
+// that has other operands as well.
+func (s *ExpressionListRewriter) hasDisjunctiveAncestor() bool {
+	for idx := len(s.descentStack) - 1; idx >= 0; idx-- {
+		switch typedAncestor := s.descentStack[idx].(type) {
+		case *cypher.Match:
+			return false
+
+		case *cypher.Disjunction:
+			if typedAncestor.Len() > 1 {
+				return true
+			}
+
+		case *cypher.ExclusiveDisjunction:
+			if typedAncestor.Len() > 1 {
+				return true
+			}
+		}
+	}
+
+	return false
+}
+
 func (s *ExpressionListRewriter) popExpression() {
 	s.descentStack = s.descentStack[:len(s.descentStack)-1]
 }
@@ -131,7 +154,9 @@ func (s *ExpressionListRewriter) Exit(node cypher.SyntaxNode) {
 		if variable, typeOK := typedNode.Reference.(*cypher.Variable); !typeOK {
 			s.SetErrorf("expected a variable as the reference for a kind matcher but received: %T", node)
 		} else if variable.Symbol == query.EdgeSymbol {
-			if s.hasNegationAncestor() {
+			// Moving the matcher into the pattern conjoins it with the rest of the query, so it has to stay where it is
+			// below a negation and below a disjunction with other operands
+			if s.hasNegationAncestor() || s.hasDisjunctiveAncestor() {
 				return
 			}
 
@@ -141,8 +166,11 @@ func (s *ExpressionListRewriter) Exit(node cypher.SyntaxNode) {
 				s.SetErrorf("expected a match AST node")
 			} else if ancestorExpressionList, isExpressionList := s.peekExpressionList(); !isExpressionList {
 				s.SetErrorf("expected an expression list AST node")
+			} else if firstRelationshipPattern := lastMatch.FirstRelationshipPattern(); len(firstRelationshipPattern.Kinds) > 0 {
+				// The kinds of a pattern are alternatives. A second matcher is a further condition, not a further
+				// alternative, and is left in the where clause
+				return
 			} else {
-				firstRelationshipPattern := lastMatch.FirstRelationshipPattern()
 				firstRelationshipPattern.Kinds = append(firstRelationshipPattern.Kinds, typedNode.Kinds...)
 
 				ancestorExpressionList.Remove(node)
